@@ -282,6 +282,10 @@ def run(ctx):
             for d in dumps:
                 if 'G' in d[3:].replace('GStatement', ''):
                     shapes.add(common.tree_shape(d))
+    # second evaluation route: the KERNEL evaluates the formatting models (strip_whitespace, use_space_around_operators,
+    # reindent) on a sample and the final strings are compared with sqlparse.format (tools/kernel_corr.py, Inst/EncodeFmt.v)
+    for st in ('fmt_sw', 'fmt_sp', 'fmt_ri'):
+        per_stage['kernel-' + st] = {'compared': common.kernel_route(ctx, st, texts, res)}
     # every parsed statement satisfies the hypothesis of stripws_total
     wf = vlib.run_model([f'swwf {vlib.cps(s)}' for s in texts])
     not_wf = [s for s, r in zip(texts, wf) if not r.startswith('OK') or '0' in r[3:]]
